@@ -37,13 +37,15 @@ def gen_cases(tier, seed):
     cases = []
     if tier == 'quick':
         sites = [(-85.0, -179.5, 3000.0), (-33.0, 151.0, 20000.0), (0.0, 10.0, -500.0),
-                 (47.0, -179.999, 3000.0), (85.0, 10.0, 20000.0)]
+                 (47.0, -179.999, 3000.0), (85.0, 10.0, 20000.0),
+                 # just west of the 180th meridian: eastward courses cross it from the other side
+                 (-60.0, 179.9995, 3000.0)]
         cruises = [(0.0, 45.0, 0.0), (30.0, 200.0, 5.0), (300.0, 45.0, -5.0), (300.0, 200.0, 0.0)]
         ladder = [0.04, 0.02, 0.01, 0.005, 0.0025]
         horizons = [8.0]
     else:
         sites = [(la, lo, al) for la in (-85.0, -33.0, 0.0, 47.0, 85.0)
-                 for lo in (-179.5, 10.0, 151.0) for al in (-500.0, 3000.0, 20000.0)]
+                 for lo in (-179.5, 10.0, 151.0, 179.9995) for al in (-500.0, 3000.0, 20000.0)]
         cruises = [(s, c, cl) for s in (0.0, 30.0, 300.0) for c in (45.0, 200.0)
                    for cl in (0.0, 5.0, -5.0)]
         ladder = [0.05, 0.025, 0.0125, 0.00625, 0.003125, 0.0015625]
